@@ -1274,6 +1274,7 @@ def run(chk, cases=None):
             chk.report(rec)
     if pending and not concrete:
         chk.report(pending[0], no_failing_input=True)
+    source_tie(chk, cases, results)
     if not replaying:
         huge_table_check(chk, chk.seed, chk.rng.choice([32765, 32766, 32767]))  # int16 / int32 boundary of the offsets
         huge_table_check(chk, chk.seed, 32800)                                  # well inside int32
@@ -1281,6 +1282,107 @@ def run(chk, cases=None):
         # S + T - 1 in {32766, 32767}; sos inside / outside the vocabulary alternate with the seed
         for V, nbig, sos in (((16384, 16383, 0), (16383, 16384, 16383)) if chk.seed % 2 else ((16383, 16383, 16383), (16384, 16384, 0))):
             int16_boundary_check(chk, V, nbig, sos)
+
+
+# ----------------------------------------------------------------------------------------
+# source tie: the Python text of _lookup_calc_idx_log_probs / LookupLanguageModel.calc_idx_log_probs, translated to
+# MiniPy (harness/py2coq) and interpreted in Coq (PV.C06.SrcRun.src_lookup_check; torch calls = PV.MiniTorch.OpsC06),
+# against the implementation's output on the index queries of this run (small tables)
+# ----------------------------------------------------------------------------------------
+IMPORTS_SRC = IMPORTS + "From PV Require C06.SrcRun C06.TieSafe.\n"
+SRC_THEOREMS = ["c06_source_lookup_is_model", "c06_source_lookup_is_tensor_program", "c06_source_method_is_model",
+                "c06_source_lookup_is_katz", "c06_source_built_lookup_is_katz"]
+SRC_MAX_V, SRC_MAX_NODES = 16, 400
+
+
+def src_query_term(q, out):
+    """SrcRun.src_lookup_check on the arguments of model_query_term (an index query)"""
+    if isinstance(out, str):
+        impl = "None"
+    else:
+        impl = "(Some (AtIdx " + c_rows(out) + "))"
+    ix = f"(Vec {clz(q['idx'])})" if isinstance(q["idx"], list) else f"(Scalar {cz(q['idx'])})"
+    return f"SrcRun.src_lookup_check b sh {c_hist(q['hist'])} {cn(q['B'])} {ix} {impl}"
+
+
+def source_tie(chk, cases, results):
+    """run the translated source inside Coq (vm_compute) on the index queries of this run's small tables, on the
+    implementation's ACTUAL buffers: validates translator + MiniPy.Interp + ext06 + MiniTorch.OpsC06 against torch;
+    independent of whether the tie lemmas still compile.  Also evaluates TieSafe.safe_okb (the in-range hypothesis of
+    the c06_source_* theorems) on every such table's actual buffers."""
+    import time
+    from vlib import CoqError
+    terms, owners, safe_terms, safe_owner = [], [], [], []
+    for ci, ((case, _), res) in enumerate(zip(cases, results)):
+        if case.get("kind") != "lm" or res.get("build") != "ok":
+            continue
+        b = res["bufs"]
+        if case["V"] > SRC_MAX_V or len(b["logps"]) > SRC_MAX_NODES:
+            continue
+        try:
+            pre = prelude(case, b)
+        except ValueError:
+            continue
+        any_q = False
+        for qi, (q, o) in enumerate(zip(case["queries"], res["outs"])):
+            if q.get("chunk") is not None or q["idx"] is None:
+                continue
+            if not isinstance(o, str) and not representable(o):
+                continue
+            if o == "exc:history-modified-in-place":
+                continue
+            terms.append("(" + pre + src_query_term(q, o) + ")")
+            owners.append((ci, qi))
+            any_q = True
+        if any_q:
+            safe_terms.append("(" + pre + "TieSafe.safe_okb b sh)")
+            safe_owner.append(ci)
+    if not terms:
+        chk.extra["source_tie_run"] = {"cases": 0, "disagreements": 0}
+        return
+    t0 = time.time()
+    try:
+        flags = coq_eval_bools(chk.workdir, IMPORTS_SRC, terms + safe_terms, shard=60, tag="srclm")
+    except CoqError as e:
+        chk.extra["source_tie_run"] = "not evaluated: " + str(e)[-400:]
+        return
+    qflags, sflags = flags[:len(terms)], flags[len(terms):]
+    bad = [owners[j] for j, ok in enumerate(qflags) if not ok]
+    unsafe = [safe_owner[j] for j, ok in enumerate(sflags) if not ok]
+    qs = [cases[ci][0]["queries"][qi] for ci, qi in owners]
+    outs = [results[ci]["outs"][qi] for ci, qi in owners]
+    chk.extra["source_tie_run"] = {
+        "cases": len(terms), "disagreements": len(bad), "tables": len(safe_terms), "tables_not_safe_okb": len(unsafe),
+        "wall_s": round(time.time() - t0, 1),
+        "scalar_idx": sum(1 for q in qs if not isinstance(q["idx"], list)),
+        "vector_idx": sum(1 for q in qs if isinstance(q["idx"], list) and len(q["idx"]) > 1),
+        "one_element_vector": sum(1 for q in qs if isinstance(q["idx"], list) and len(q["idx"]) == 1),
+        "raising": sum(1 for o in outs if isinstance(o, str)),
+        "padded": sum(1 for (ci, qi), q, o in zip(owners, qs, outs) if not isinstance(o, str) and query_valid(q) and
+                      min([i % (len(q["hist"]) + 1) for i in (q["idx"] if isinstance(q["idx"], list) else [q["idx"]])])
+                      < len(cases[ci][0]["dicts"]) - 1),
+        "order1": sum(1 for ci, _ in owners if len(cases[ci][0]["dicts"]) == 1),
+        "sos_out_of_vocab": sum(1 for ci, _ in owners if not 0 <= cases[ci][0]["sos"] < cases[ci][0]["V"])}
+    chk.count("source_tie_cases", len(terms))
+    if bad:
+        ci, qi = bad[0]
+        chk.report({"case": dict(cases[ci][0], queries=[cases[ci][0]["queries"][qi]]), "impl": results[ci]["outs"][qi],
+                    "what": "the Python source of _lookup_calc_idx_log_probs / calc_idx_log_probs as translated to MiniPy and "
+                            "interpreted in Coq (PV.C06.SrcRun.src_lookup_check, torch calls = PV.MiniTorch.OpsC06) does not "
+                            "reproduce the implementation's output on its actual buffers: translator / interpreter / ext06 / "
+                            "MiniTorch no longer describe the code",
+                    "disagreeing_cases": len(bad),
+                    "correspondence": "tie:C06:py2coq+MiniPy.Interp+MiniTorch:_lookup_calc_idx_log_probs",
+                    "theorems_at_stake": SRC_THEOREMS}, no_failing_input=True)
+    elif unsafe:
+        ci = unsafe[0]
+        chk.report({"case": dict(cases[ci][0], queries=[]), "impl": results[ci]["bufs"],
+                    "what": "the implementation's actual buffers fail TieSafe.safe_okb (every index the two-path descent "
+                            "forms lies inside offsets / ids / logps / logbs): the hypothesis under which the interpreted "
+                            "source is proved equal to the model no longer holds for built tries",
+                    "tables": len(unsafe),
+                    "correspondence": "tie:C06:safe_okb:_build_trie buffers",
+                    "theorems_at_stake": SRC_THEOREMS}, no_failing_input=True)
 
 
 def replay(chk, path):
